@@ -283,18 +283,21 @@ theorem visit_py (ops : Ops) (env : Env) (keep : Nat → Bool) (strict : Bool) :
       simp only [visit, VRes.bind_of_ok ia]
       simp [hk, List.filter_append, any_isNone_map_some, filterMap_id_map_some]
       logrel
-  | .comp i targets inner, v, P, hw, _, ho, hi, h => by
+  | .comp i targets first inner, v, P, hw, hs, ho, hi, h => by
       simp only [pyEval, Except.bind_eq_ok_iff, pure, Except.pure, Except.ok.injEq, Prod.mk.injEq] at h
-      obtain ⟨r, h1, rfl, rfl⟩ := h
-      have hk : keep i = true := ho i (by simp [outerIds])
-      simp only [innerIds] at hi
+      obtain ⟨⟨v0, l0⟩, h0, r, h1, rfl, rfl⟩ := h
+      simp only [Expr.wf] at hw
+      simp only [Expr.orderFaithful] at hs
+      simp only [outerIds, innerIds, List.forall_mem_cons, List.forall_mem_append] at ho hi
+      obtain ⟨hk, ho1⟩ := ho
+      obtain ⟨ia, ib⟩ := visit_py ops env keep strict first v0 l0 hw hs ho1 hi.1 h0
       have hh : (harvest ops env.builtins ((Tbl.ofNames env.names).shadow targets) inner).log.filter
           (fun p => keep p.1) = [] := by
         rw [List.filter_eq_nil_iff]
         intro p hp
-        have := hi p.1 (harvest_logIn ops env.builtins _ inner p hp)
+        have := hi.2 p.1 (harvest_logIn ops env.builtins _ inner p hp)
         simp [this]
-      simp only [visit, VRes.bind_of_ok (harvest_out _ _ _ _)]
+      simp only [visit, VRes.mk_ok_bind, VRes.bind_of_ok (harvest_out _ _ _ _)]
       simp [hasPlaceholder_ofNames, values_ofNames, h1, hh, hk, List.filter_append]
       logrel
   -- second version ------------------------------------------------------------------------------------
